@@ -207,6 +207,41 @@ SUITE_TESTS = {        # the `tests` attribute written to the report: one per re
 }
 
 
+# ---- the recording entry points: each reported result is recorded exactly once, with its own failure / error ---------
+def record_rule(E, st, node, args, kws, k):
+    """self._record(...): one more recorded result (ghost G.nrec); TypeError for an unknown test type (contract of _record)"""
+    st.ghost['nrec'] = VInt(st.ghost['nrec'].z + 1)
+    s2 = st.copy()
+    s2.path.append('_record!TypeError@%s' % node.lineno)
+    return E.raise_(s2, 'TypeError') + k(st, NONE)
+record_rule.__name__ = 'self._record(test, seconds, failure=, error=): records one result (ghost G.nrec += 1) or raises TypeError (unknown test type) -- the contract proved on _record'
+record_rule.modifies = ['G.nrec']
+
+_WRAP = {
+    'property': ['C17'],
+    'self_fields': {'delegate': 'Output'},
+    'ghost': {'nrec': 'int'},
+    'requires': [], 'modifies': ['G.nrec'],
+    'ensures': ["G.nrec == old(G.nrec) + 1"],                  # recorded exactly once, whatever stdout / stderr are
+    'raises': {'TypeError': []},
+    'rules': {'self._record': record_rule, 'self.delegate.*': 'NOEFFECT'},
+}
+WRAP_FAILURE = dict(_WRAP, params={'test': 'Any', 'seconds': 'real', 'exc_info': 'ExcInfo', 'stdout': 'Opt[Str]', 'stderr': 'Opt[Str]'},
+                    callsites={'self._record': ["G.nrec == old(G.nrec)", "_arg0 == test", "_arg1 == seconds",
+                                                "_kw_failure == exc_info", "not has_kw_error"]})
+WRAP_ERROR = dict(_WRAP, params={'test': 'Any', 'seconds': 'real', 'exc_info': 'ExcInfo', 'stdout': 'Opt[Str]', 'stderr': 'Opt[Str]'},
+                  callsites={'self._record': ["G.nrec == old(G.nrec)", "_arg0 == test", "_arg1 == seconds",
+                                              "_kw_error == exc_info", "not has_kw_failure"]})
+WRAP_SUCCESS = dict(_WRAP, params={'test': 'Any', 'seconds': 'real'},
+                    callsites={'self._record': ["G.nrec == old(G.nrec)", "_arg0 == test", "_arg1 == seconds",
+                                                "not has_kw_failure", "not has_kw_error"]})
+WRAP_IMPORT_ERRORS = dict(_WRAP, params={'import_errors': 'List[StartUpFailure]'},
+                          ensures=["G.nrec == old(G.nrec) + len(import_errors)"],      # one Startup case per import error
+                          callsites={'self._record': ["_arg0 == import_errors[_i]", "_kw_error == exc_info_of(_arg0)",
+                                                      "not has_kw_failure"]},
+                          loops={'#loop1': ["G.nrec == old(G.nrec) + _i"]})
+
+
 def syntactic(E):
     w, _, src = E.find_def('formatter.XMLOutputFormattingWrapper.writeXMLReports')
     E.syntactic_obligation("writeXMLReports takes tests/errors/failures attributes from the suite info and writes one testcase per recorded case",
@@ -224,10 +259,6 @@ def syntactic(E):
     E.syntactic_obligation("the report text can be written under every locale: it is serialised ASCII-only (ElementTree.tostring "
                            "default, character references) or the file is opened with an explicit encoding",
                            ascii_only or explicit, props=('C17',))
-    for m in ('test_success', 'test_failure', 'test_error'):
-        f, _, s2 = E.find_def('formatter.XMLOutputFormattingWrapper.' + m)
-        E.syntactic_obligation("XMLOutputFormattingWrapper.%s records the result exactly once" % m, s2.count('self._record(') == 1,
-                               props=('C17',))
     xml_char_class_lemma(E)
 
 
@@ -331,3 +362,11 @@ def register(E):
     E.add_contract('formatter.TestSuiteInfo.tests', SUITE_TESTS)
     E.add_contract('formatter.parse_unittest', PARSE_UNITTEST)
     E.add_contract('formatter.XMLOutputFormattingWrapper._record', RECORD)
+    sfx = z3.Function('startup_failure_exc_info', usort('StartUpFailure'), ExcInfo)
+    E.objattrs[('StartUpFailure', 'exc_info')] = lambda eng, st, t: VObj('ExcInfo', sfx(t.z))
+    E.specfuncs['exc_info_of'] = lambda eng, st, t: VObj('ExcInfo', sfx(t.z))
+    W = 'formatter.XMLOutputFormattingWrapper.'
+    E.add_contract(W + 'test_failure', WRAP_FAILURE)
+    E.add_contract(W + 'test_error', WRAP_ERROR)
+    E.add_contract(W + 'test_success', WRAP_SUCCESS)
+    E.add_contract(W + 'import_errors', WRAP_IMPORT_ERRORS)
